@@ -18,14 +18,14 @@ def run(ctx):
     ge = ctx.tlc_scenarios("ManifestGen", "C02_gen_edit.cfg", workers=4, label="setter programs (length <= 3, 7 kinds, 2 algorithms)")
     gf = ctx.tlc_scenarios("ManifestGen", "C02_gen_fetch.cfg", workers=4, label="fetch combinations")
     edits, fetches = ge["scenarios"], gf["scenarios"]
-    if len(edits) < 50000 or len(fetches) < 10000:
+    if len(edits) < 50000 or len(fetches) < 20000:
         raise vlib.ToolError("scenario spaces too small: %d / %d" % (len(edits), len(fetches)))
     total_e, total_f = len(edits), len(fetches)
     if not ctx.thorough:
         short = [e for e in edits if len(e["prog"]) <= 2]
         long3 = [e for e in edits if len(e["prog"]) == 3]
         edits = short + rng.sample(long3, 6000)
-        fetches = rng.sample(fetches, 6000)
+        fetches = rng.sample(fetches, 9000)
     rng.shuffle(edits)
     rng.shuffle(fetches)
     nchunks = 8 if ctx.thorough else 4
